@@ -15,8 +15,9 @@ Space     N in {1,2,3,5,8} paths  x  ALL sequences of terminal spot values over 
           uncorrelated on samples symmetric about 1 while their covariance matrix is invertible.
           Additions beyond DESIGN section 6 (cheap, same oracle): alphabet A4 = (0.5, 1, 1.5, 2) for N <= 5 (4^N <= 1024), so
           that two controls plus an intercept do not interpolate the payoff; the LOG process representation for N <= 3.
-          quick = the full lattice for N <= 5 (A3 and A4) and LOG, plus N = 8 on the sub-lattice notional 2.5 / df 0.9 / spot on;
-          thorough = everything.
+          quick = the full lattice for N <= 5 on A3 (and LOG for N <= 3), A4 for N <= 3 in full and N = 5 on the sub-lattice
+          notional 2.5 / df 0.9 / spot on, N = 8 on that sub-lattice for payoff s, v2 and controls none, 1a, 2a;
+          thorough = everything (N = 8 and A4 with N = 5 on the full lattice).
 
 Oracle    (pure-Python reference, math.fsum; least squares by SVD - independent of the library's covariance/inverse route)
   calls   simulate_one_path is called exactly N times, pre_computation with N;
@@ -111,12 +112,17 @@ def cases(tier):
     for n in (1, 2, 3):
         for c in confs:
             out.append(dict(c, sub="sweep", alphabet="A3", rep="log", N=n, lo=0, hi=3 ** n))
+    def sub_lattice(c):
+        return c["notional"] == 2.5 and c["df"] == 0.9 and c["spot"] == 1
+
     for n in (1, 2, 3, 5):
         for c in confs:
+            if n == 5 and not thorough and not sub_lattice(c):
+                continue
             for lo, hi in _blocks(n, 4):
                 out.append(dict(c, sub="sweep", alphabet="A4", rep="identity", N=n, lo=lo, hi=hi))
     for c in confs:
-        if not thorough and not (c["notional"] == 2.5 and c["df"] == 0.9 and c["spot"] == 1):
+        if not thorough and not (sub_lattice(c) and c["payoff"] in ("s", "v2") and c["cv"] in ("none", "1a", "2a")):
             continue
         for lo, hi in _blocks(8, 3):
             out.append(dict(c, sub="sweep", alphabet="A3", rep="identity", N=8, lo=lo, hi=hi))
